@@ -13,6 +13,7 @@ class Registry(object):
         self.lemmas = []         # dict(id, props, fn)
         self.targets = []        # list of (prop, key, variant name)
         self.builders = {}
+        self.ghost_concrete = {}
         self.findings_classes = {}
         self._spec_cache = {}
 
@@ -42,8 +43,15 @@ class Registry(object):
     def cls(self, key, fields, invariant=None):
         self.classes[key] = {'fields': dict(fields), 'invariant': invariant or []}
 
-    def ghost(self, name, params, body):
-        """spec function: body is a spec-dialect expression string, or callable(ex, st, *values)->Value"""
+    def builder(self, clskey, fn):
+        """fn(json_model, conv) -> real object; runs under /venv/bin/python in the replayer"""
+        self.builders[clskey] = fn
+
+    def ghost(self, name, params, body, concrete=None):
+        """spec function: body is a spec-dialect expression string, or callable(ex, st, *values)->Value
+        (then `concrete` is its twin on real Python objects for the replayer)"""
+        if concrete is not None:
+            self.ghost_concrete[name] = concrete
         if isinstance(body, str):
             body = ast.parse(' '.join(body.split()), mode='eval').body
         self.ghosts[name] = (list(params), body)
